@@ -640,3 +640,27 @@ def derives_from_local(fn, op, local, max_nodes=200):
                 for o in rvalue_operands(df[3]):
                     stack.extend(operand_locals(o))
     return False
+
+
+def switch_on_try_call(fn, target):
+    """Switches on the bool produced by `callee(..)?` (Result<bool> unwrapped by the ? desugaring) or `callee(..)`.
+    Returns list of (switch block, true target, false target, call block)."""
+    from . import flow
+    pred = mk_pred(target)
+    out = []
+    for cb, c in fn.calls():
+        k = c.get("f")
+        if k is None or not pred(k) or c["dest"][1]:
+            continue
+        derived, uses = flow.forward(fn, [c["dest"][0]])
+        for b, blk in enumerate(fn.blocks):
+            if blk.get("cu") or blk["t"][0] != "sw" or blk["t"][4] != "bool":
+                continue
+            l = C.op_local(blk["t"][1])
+            if l is None or l not in derived:
+                continue
+            zero = [tg for v, tg in blk["t"][2] if v == 0]
+            if not zero:
+                continue
+            out.append((b, blk["t"][3], zero[0], cb))
+    return out
